@@ -33,7 +33,7 @@ def main():
         marks = [(False, True), (False, False), (True, True), (True, False)] if has_des else [(False, None), (True, None)]
         variants = [('sdw', 1)]
         for sname, S in subjects.items():
-          for build, copies in ([('sdw', 1), ('mapping', 1), ('sdw', 7), ('ticked', 1)] if sname in ('atom', 'pred') else [('sdw', 1)]):
+          for build, copies in ([('sdw', 1), ('mapping', 1), ('sdw', 7), ('ticked', 1), ('prefilled', 1)] if sname in ('atom', 'pred') else [('sdw', 1)]):
             for w in worlds:
                 for k in range(len(marks) + 1):
                     for sub in itertools.combinations(marks, k):
@@ -43,7 +43,12 @@ def main():
                                    lits=[[neg, d] for neg, d in sub], build=build, copies=copies)
                         try:
                             tab = Tableau(logic)
-                            b = tab.branch()
+                            if build == 'prefilled':
+                                # the branch is filled first and handed to the tableau afterwards
+                                from pytableaux.proof import Branch
+                                b = Branch()
+                            else:
+                                b = tab.branch()
                             for neg, d in sub:
                                 for _ in range(copies):
                                     sent = ~S if neg else S
@@ -56,6 +61,8 @@ def main():
                                         b.append(mp)
                                     else:
                                         b.append(sdwnode(sent, d, w))
+                            if build == 'prefilled':
+                                tab.add(b)
                             if build == 'ticked':
                                 # literals ticked by hand are still nodes of the branch: they close it and are read
                                 for n_ in list(b):
